@@ -93,6 +93,18 @@ ROUNDING = ("{f: for i in 1..40 return floor((n + i) / 7), c: for i in 1..40 ret
             "cmp: for i in 1..20 return floor((n + i) / 7) <= ceiling((n + i) / 7), sq: sqrt(abs(n) + 0.5), "
             "mix: sum(for i in 1..30 return floor((n * i + m) / 11) - ceiling((m * i - n) / 13))}")
 
+# built-in functions that are handed a function: the ordering function names inputs of the invoking decision (free names) and its own
+# parameters; long lists keep each call busy for a while
+LISTS = ("{xs: for i in 1..120 return modulo(i * 37 + floor(abs(n)), 61) - 30, "
+         "byk: sort(xs, function(a, b) a * (k - 4.5) < b * (k - 4.5)), asc: sort(xs, function(a, b) a < b), "
+         "bym: sort(xs, function(a, b) modulo(a, abs(floor(m)) + 2) < modulo(b, abs(floor(m)) + 2)), "
+         "dv: distinct values(xs), ix: index of(xs, floor(abs(n))), mx: max(xs) - min(xs), "
+         "first: byk[1], last: asc[-1], cnt: count(bym)}")
+
+# the same directly as the logic of a decision: the free names of the ordering function are the decision's own inputs
+SORTED = ("sort(for i in 1..200 return modulo(i * 37 + floor(abs(n)), 61) - 30 + i / 1000, "
+          "function(a, b) a * (k - 4.5) + m < b * (k - 4.5) + m)")
+
 ZONES = ["Europe/Warsaw", "America/New_York", "Australia/Sydney", "Asia/Tokyo", "America/Sao_Paulo", "Africa/Johannesburg",
          "Europe/London", "Asia/Kolkata", "Pacific/Auckland", "America/Los_Angeles"]
 
@@ -169,6 +181,8 @@ def build():
     parts.append(_decision("Numeric", "_numeric", _req_inputs(["n", "m"]), _literal(NUMERIC), "number"))
     parts.append(_decision("Powers", "_powers", _req_inputs(["n", "m"]), _literal(POWERS)))
     parts.append(_decision("Rounding", "_rounding", _req_inputs(["n", "m"]), _literal(ROUNDING)))
+    parts.append(_decision("Lists", "_lists", _req_inputs(["n", "m", "k"]), _literal(LISTS)))
+    parts.append(_decision("Sorted", "_sorted", _req_inputs(["n", "m", "k"]), _literal(SORTED)))
     parts.append(_decision("Temporal", "_temporal", _req_inputs(["d", "ts", "k"]), _literal(TEMPORAL)))
     parts.append(_decision("ManyZones", "_manyzones", _req_inputs(["n", "m", "k", "d", "ts"]), _literal(MANYZONES)))
     parts.append(_decision("Allowed", "_allowed", _req_inputs(["status", "scores", "person"]),
@@ -241,7 +255,8 @@ XML = build()
 
 # invocables by workload class (the property's "numeric, temporal, regular-expression and decision-table heavy")
 CLASSES = {
-    "numeric": ["Numeric", "Powers", "Rounding"],
+    "numeric": ["Numeric", "Powers", "Rounding", "Lists"],
+    "lists": ["Sorted", "Lists", "Sorted"],
     "temporal": ["Temporal", "ManyZones"],
     "regex": ["Regex", "Flags", "Priority"],
     "typed": ["Allowed"],
@@ -250,12 +265,12 @@ CLASSES = {
     "table": ["Grid", "Collect", "Priority", "Ranked", "Ordered", "Listed", "Least"],
     "nested": ["Top", "Mid", "Outer", "Svc", "Leaf", "Calc", "Band"],
 }
-INVOCABLES = ["Numeric", "Powers", "Rounding", "Temporal", "ManyZones", "Allowed", "Regex", "Flags", "Grid", "Collect", "Priority", "Ranked", "Ordered", "Listed", "Least", "Recur", "Consts", "UsesConsts", "Base", "Leaf", "Svc", "Calc", "Band",
+INVOCABLES = ["Numeric", "Powers", "Rounding", "Lists", "Sorted", "Temporal", "ManyZones", "Allowed", "Regex", "Flags", "Grid", "Collect", "Priority", "Ranked", "Ordered", "Listed", "Least", "Recur", "Consts", "UsesConsts", "Base", "Leaf", "Svc", "Calc", "Band",
               "Mid", "Top", "Outer"]
 
 
 def class_of(name):
-    for c in ("nested", "numeric", "temporal", "regex", "table", "typed", "recursion", "constant"):
+    for c in ("nested", "lists", "numeric", "temporal", "regex", "table", "typed", "recursion", "constant"):
         if name in CLASSES[c]:
             return c
     return "other"
